@@ -137,7 +137,7 @@ Definition concretize_literal_to (abstract concrete : lit) : lit :=
     match concrete with
     | LI32 _ => LI32 (f2i32_amd64 (round_to_f64 v))
     | LU32 _ => LU32 (f2u32_amd64 (round_to_f64 v))
-    | LF32 _ => match F.(f_conc) abstract TF32 with Some l => l | None => abstract end
+    | LF32 _ => match F.(f_conc) (F.(f_ai_to_af) v) TF32 with Some l => l | None => abstract end   (* float32(float64(int64(a))) *)
     | _ => abstract          (* LiteralF16 / Bool / abstract: default branch returns the abstract literal *)
     end
   | LAF _ =>
